@@ -6,8 +6,13 @@ import base64, json, os, re
 from collections import Counter
 from fractions import Fraction
 
-PKG = "network/dag"
-HARNESS = ["network/dag/zz_verif_c06_test.go"]
+LIB = "network/dag/zz_verif_c06_lib.go"       # non-test overlay: builders, describers, executor + exported facade
+LEGS = [  # (leg, package, overlay files, test function)
+    ("dag", "network/dag", ["network/dag/zz_verif_c06_test.go", LIB], "TestVerifC06"),
+    ("v2", "network/transport/v2", ["network/transport/v2/zz_verif_c06_test.go", LIB], "TestVerifC06V2"),
+    ("net", "network", ["network/zz_verif_c06_test.go", LIB], "TestVerifC06Network"),
+]
+HARNESSES = [(pkg, files, "c06" + leg) for leg, pkg, files, _ in LEGS]
 
 REQUIRED = ["parse_sound", "last_member_decides", "lc_exact", "lc_exact_fails_without_guard", "admitted_sound", "admitted_prevs_clock",
             "admitted_signature", "add_idempotent", "rejected_no_trace", "cancelled_add_no_trace", "fact_rollback_reloads", "dag_inv", "concurrent_adds_serialise",
@@ -146,41 +151,72 @@ def run(ctx):
     ]
     algos = (facts or {}).get("allowedAlgos") or []
 
-    binary = ctx.go_test_binary(PKG, HARNESS, "c06")
-    if binary is None:
-        ctx.oblige("harness-builds", False, ctx.harness_error[-1500:])
-        return
-    ctx.oblige("harness-builds", True)
-    env = {}
+    # ---- which legs run: all three; a replay file names its leg (and, for the network leg, its seed) in a first meta line
+    replay_leg, replay_seed = None, None
     if ctx.replay:
-        env["VERIF_REPLAY"] = os.path.abspath(ctx.replay)
-    else:
-        env["VERIF_CORPUS"] = os.path.join(os.path.dirname(os.path.dirname(os.path.abspath(__file__))), "harness", "corpus", "C06")
-    rc, log, out = ctx.run_harness(binary, "TestVerifC06", env, timeout=3000)
-    if rc != 0:
-        ctx.oblige("harness-runs", False, log[-1500:])
+        replay_leg = "dag"
+        with open(ctx.replay) as f:
+            first = f.readline()
+        try:
+            meta = json.loads(first)
+            if meta.get("op") == "meta":
+                replay_leg, replay_seed = meta.get("leg", "dag"), meta.get("seed")
+        except Exception:
+            pass
+    raw_ops, impl, model, side, leg_of = [], [], [], [], []
+    n_bad_lines = 0
+    for leg, pkg, files, test in LEGS:
+        if replay_leg and leg != replay_leg:
+            continue
+        binary = ctx.go_test_binary(pkg, files, "c06" + leg)
+        if binary is None:
+            ctx.oblige("harness-builds:" + leg, False, ctx.harness_error[-1500:])
+            continue
+        ctx.oblige("harness-builds:" + leg, True)
+        env = {}
+        if ctx.replay and leg != "net":
+            env["VERIF_REPLAY"] = os.path.abspath(ctx.replay)
+        elif ctx.replay:
+            env["VERIF_SEED"] = replay_seed if replay_seed is not None else ctx.seed
+        elif leg == "dag":
+            env["VERIF_CORPUS"] = os.path.join(os.path.dirname(os.path.dirname(os.path.abspath(__file__))), "harness", "corpus", "C06")
+        rc, log, out = ctx.run_harness(binary, test, env, outdir=os.path.join(ctx.scratch, "out_" + leg), timeout=3000)
+        if rc != 0:
+            ctx.oblige("harness-runs:" + leg, False, log[-1500:])
+            continue
+        ctx.oblige("harness-runs:" + leg, True)
+        ops_p, impl_p, model_p = (os.path.join(out, x) for x in ("ops.jsonl", "impl.out", "model.out"))
+        ok, err = ctx.model("C06", ops_p, model_p)
+        ctx.oblige("model-driver-runs:" + leg, ok, err[-500:])
+        a, b, _ = ctx.compare(impl_p, model_p)
+        ro = ctx.read_lines(ops_p)[:len(a)]
+        side_p = os.path.join(out, "impl.side")
+        sd = ctx.read_lines(side_p)[:len(a)] if os.path.exists(side_p) else []
+        sd += [None] * (len(a) - len(sd))
+        b = (b + [None] * len(a))[:max(len(a), len(b))]
+        n_bad_lines += max(0, len(b) - len(a))
+        raw_ops += ro
+        impl += a
+        model += b[:len(a)]
+        side += sd
+        leg_of += [leg] * len(a)
+    if not impl:
         return
-    ctx.oblige("harness-runs", True)
-    ops_p, impl_p, model_p = (os.path.join(out, x) for x in ("ops.jsonl", "impl.out", "model.out"))
-    ok, err = ctx.model("C06", ops_p, model_p)
-    ctx.oblige("model-driver-runs", ok, err[-500:])
-    impl, model, bad = ctx.compare(impl_p, model_p)
-    raw_ops = ctx.read_lines(ops_p)
-    side_p = os.path.join(out, "impl.side")
-    side = ctx.read_lines(side_p) if os.path.exists(side_p) else []
-    ops = [json.loads(l) if l else {} for l in raw_ops[:len(impl)]]
+    bad = [i for i in range(len(impl)) if impl[i] != model[i]]
+    ops = [json.loads(l) if l else {} for l in raw_ops]
 
     def hist_start(i):
         k = i
-        while k > 0 and ops[k].get("op") != "new":
+        while k > 0 and ops[k].get("op") != "new" and leg_of[k - 1] == leg_of[i]:
             k -= 1
         return k
 
     def replay_text(i):
+        meta = json.dumps({"op": "meta", "leg": leg_of[i], "seed": ctx.seed})
         op = ops[i].get("op")
         if op == "parse":
-            return raw_ops[i]
-        return "\n".join(raw_ops[hist_start(i):i + 1])
+            return meta + "\n" + raw_ops[i]
+        return meta + "\n" + "\n".join(raw_ops[hist_start(i):i + 1])
 
     seen_sig = set()
 
@@ -247,10 +283,56 @@ def run(ctx):
     lcs_prev = []
     docs = {}            # resolver table of the current history: (did, source ref) -> entry (last registration wins)
     n_add = n_admit = n_reject = n_readd = 0
+    import hashlib
+    probe_phs = []       # the payload hashes probed by ReadPayload, rebuilt here in the harness's order
+    declared = {}        # ref8 -> declared payload hash (JWS payload text) of every transaction offered in the history
+    n_list = n_late = n_create = 0
+    lite = False         # legs in other packages observe without job shelves / notification ledger
+
+    def check_new_tx(c, i, byref, via):
+        """a transaction that became present through `via` (list / create): everything the property demands of it"""
+        jws = c["jws"]
+        m = members(jws)
+        ref8 = jws["ref"][:8]
+        br = wellformed(jws, algos)
+        if br:
+            violate("C06:admitted-malformed:" + br[0], f"{via}: admitted transaction is not well-formed: {br}", i)
+        if not framing_ok(c["in"]):
+            violate("C06:not-a-jws-serialization", f"{via}: bytes that are not a JWS serialization were admitted", i)
+        pv = [el.get("s", "")[:8].lower() for el in m.get("prevs", {}).get("v", [])]
+        if any(p not in byref for p in pv):
+            violate("C06:admitted-with-missing-prev", f"{via}: prevs {[p for p in pv if p not in byref]} not stored", i)
+        elif byref[ref8] != 1 + max([byref[p] for p in pv], default=-1):
+            violate("C06:admitted-with-wrong-clock", f"{via}: stored at clock {byref[ref8]}, prevs imply {1 + max([byref[p] for p in pv], default=-1)}", i)
+        lc = jval(m.get("lc", {}))
+        if lc is None or lc != byref[ref8]:
+            violate("C06:lc-not-exact", f"{via}: declared lc differs from the clock {byref[ref8]} it is stored at", i)
+        if "jwk" in m and not c.get("sigJwk"):
+            violate("C06:admitted-bad-signature", f"{via}: signature does not verify against the embedded key", i)
+        if "jwk" not in m and not c.get("sigKeys"):
+            violate("C06:admitted-bad-signature", f"{via}: signature verifies against no key", i)
+        if c.get("pid") is not None and c.get("sha", "").lower() != jws.get("payload", "").lower():
+            violate("C06:admitted-wrong-payload", f"{via}: supplied payload does not hash to the declared payload hash", i)
+        pal = m.get("pal", {})
+        if c.get("pid") is None and via == "list" and not (pal.get("t") == "arr" and pal.get("v")):
+            violate("C06:public-tx-admitted-without-payload", "a TransactionList admitted a public transaction that came without payload", i)
+
     for i, op in enumerate(ops):
         kind = op.get("op")
-        if kind not in ("new", "add", "reopen", "sched", "doc"):
+        if kind not in ("new", "add", "reopen", "sched", "doc", "list", "payload", "create"):
             continue
+        if kind == "new":
+            probe_phs, declared = [], {}
+            lite = bool(op.get("lite"))
+        cs_all = [op["call"]] if kind in ("add", "create") and op.get("call") else (op.get("calls") or [])
+        for c0 in cs_all:
+            declared[c0["jws"]["ref"][:8]] = (c0["jws"].get("payload") or "").lower()
+            for ph in c0.get("phs") or []:
+                if ph.lower() not in probe_phs:
+                    probe_phs.append(ph.lower())
+        for ph in (op.get("phs") or []) if kind == "payload" else []:
+            if ph.lower() not in probe_phs:
+                probe_phs.append(ph.lower())
         if kind == "doc":
             docs[(op.get("did"), op.get("src"))] = op.get("doc") or {}
             continue
@@ -293,6 +375,59 @@ def run(ctx):
             violate("C06:digest-differs-from-stored", "XOR digest is not the XOR of the stored refs", i)
         if "X" in o.get("P", "") or "E" in o.get("P", "") or "X" in o.get("PL", ""):
             violate("C06:inconsistent-read", "IsPresent/GetTransaction/ReadPayload disagree", i)
+        # the payload store, as ReadPayload shows it: whatever is stored under a hash hashes to it
+        pls = [x for x in o.get("PL", "").split(",")] if o.get("PL", "") != "" else []
+        if len(pls) == len(probe_phs):
+            for hx, pidtxt in zip(probe_phs, pls):
+                if pidtxt != "-" and hashlib.sha256(b"P" + pidtxt.encode()).hexdigest() != hx:
+                    violate("C06:stored-payload-does-not-hash-to-its-key", f"ReadPayload({hx[:8]}..) returns the bytes P{pidtxt}, which hash to something else", i)
+        if kind in ("list", "create"):
+            byref = {r: int(cl) for cl, r in lcs}
+            newrefs = [r for _, r in lcs if r not in [x for _, x in lcs_prev]]
+            res = o["head"][2:] if o["head"].startswith("r=") else o["head"]
+            stats[kind + ":" + res.split(" ")[0]] += 1
+            cs = op.get("calls") or ([op["call"]] if op.get("call") else [])
+            byc = {c0["jws"]["ref"][:8]: c0 for c0 in cs}
+            for r8 in newrefs:
+                if r8 not in byc:
+                    violate("C06:admission-not-exactly-one", f"{kind}: {r8} appeared but was not offered", i)
+                else:
+                    check_new_tx(byc[r8], i, byref, kind)
+            if kind == "list":
+                n_list += 1
+                notes["list/" + (op.get("note") or "").split(":")[0].split("@")[0].split("(")[0]] += 1
+                if any(c0["jws"].get("framing") == "bad" or wellformed(c0["jws"], algos) for c0 in cs) and res.split(" ")[0] not in ("ok", "ok:missing-prevs") and False:
+                    pass
+                if any(c0["jws"].get("framing") == "bad" for c0 in cs) and newrefs:
+                    violate("C06:list-with-unparseable-tx-partly-admitted", "a TransactionList holding bytes that do not parse added transactions", i)
+                if not res.startswith("ok") and not newrefs and prev is not None and any(o.get(k) != prev.get(k) for k in ("LC", "m_n", "m_lch", "m_lca", "m_head", "m_xor")):
+                    violate("C06:rejected-left-trace", f"handleTransactionList returned {res}, added nothing, but the observable state changed", i)
+            else:
+                n_create += 1
+                if res.startswith("ok"):
+                    c0 = op["call"]
+                    r8 = c0["jws"]["ref"][:8]
+                    pv = [el.get("s", "")[:8].lower() for el in members(c0["jws"]).get("prevs", {}).get("v", [])]
+                    want = [a[:8].lower() for a in op.get("additional") or []]
+                    if prev is not None and prev.get("m_head", "-") != "-":
+                        want.append(prev["m_head"])
+                    if newrefs != [r8] or any(w not in pv for w in want) or len(set(pv)) != len(pv):
+                        violate("C06:created-tx-prevs", f"CreateTransaction: prevs {pv} do not hold the head and the additional prevs {want} exactly once, or the transaction was not stored", i)
+                elif newrefs or (prev is not None and any(o.get(k) != prev.get(k) for k in ("LC", "m_n", "m_xor"))):
+                    violate("C06:rejected-left-trace", f"CreateTransaction returned {res} but the observable state changed", i)
+        if kind == "payload":
+            n_late += 1
+            res = o["head"][2:] if o["head"].startswith("r=") else o["head"]
+            stats["payload:" + res] += 1
+            notes["payload/" + (op.get("note") or "")] += 1
+            r8 = op.get("ref", "")[:8]
+            if res == "ok" and declared.get(r8) != (op.get("sha") or "").lower():
+                violate("C06:late-payload-with-wrong-bytes-accepted", f"handleTransactionPayload stored bytes for {r8} that do not hash to its declared payload hash", i)
+            def pl_same():
+                a0 = [x for x in prev.get("PL", "").split(",") if x]
+                return [x for x in o.get("PL", "").split(",") if x][:len(a0)] == a0
+            if res != "ok" and prev is not None and (any(o.get(k) != prev.get(k) for k in ("LC", "m_n", "m_xor")) or not pl_same()):
+                violate("C06:rejected-left-trace", f"handleTransactionPayload returned {res} but the observable state changed", i)
         if kind == "reopen":
             if prev is not None and any(o.get(k) != prev.get(k) for k in ("LC", "PL", "J", "m_n", "m_lch", "m_lca", "m_head", "m_xor")):
                 violate("C06:reopen-differs", "a second state on the same database observes a different DAG", i)
@@ -377,7 +512,7 @@ def run(ctx):
                     if c.get("pid") is not None and c.get("sha", "").lower() != jws.get("payload", "").lower():
                         violate("C06:admitted-wrong-payload", "payload does not hash to the declared payload hash", i)
                     ev = [e for e in o.get("E", "").split(",") if e]
-                    if sum(1 for e in ev if e == f"gossip:t:{ref8}") != 1 or any(not e.endswith(ref8) for e in ev):
+                    if not lite and (sum(1 for e in ev if e == f"gossip:t:{ref8}") != 1 or any(not e.endswith(ref8) for e in ev)):
                         violate("C06:notification-not-exactly-once", f"notifications for the admission: {ev}", i)
         if kind == "sched":
             stats["sched"] += 1
@@ -394,7 +529,8 @@ def run(ctx):
             prev, lcs_prev, prev_side = o, [], cur_side
     ctx.oblige("oracle:admission-sound/no-trace/idempotent(impl)", not any(s.split(":")[1] in (
         "rejected-left-trace", "rejected-left-trace-in-digests", "payload-event-with-wrong-bytes", "readd-changed-state", "admission-not-exactly-one", "admitted-with-missing-prev", "admitted-with-wrong-clock",
-        "second-root", "admitted-bad-signature", "admitted-unresolvable-kid", "admitted-wrong-payload", "notification-not-exactly-once", "ref-stored-twice",
+        "second-root", "admitted-bad-signature", "admitted-unresolvable-kid", "stored-payload-does-not-hash-to-its-key",
+        "public-tx-admitted-without-payload", "list-with-unparseable-tx-partly-admitted", "created-tx-prevs", "late-payload-with-wrong-bytes-accepted", "admitted-wrong-payload", "notification-not-exactly-once", "ref-stored-twice",
         "count-differs-from-stored", "two-roots", "digest-differs-from-stored", "inconsistent-read", "reopen-differs") or
         s.startswith("C06:admitted-malformed") for s in seen_sig),
         f"{n_add} adds: {n_admit} admitted, {n_reject} rejected ({n_cancel} with the context cancelled inside the write tx), {n_readd} re-adds")
@@ -475,5 +611,7 @@ def run(ctx):
                        "ALL interleavings of read-tx/write-tx steps (6 for 2 threads, 90 for 3) forced by a gating KVStore. distinct_nontrivial = distinct input byte strings offered")
     ctx.cov["input_distribution"] = {"ops": {k: v for k, v in sorted(stats.items())}, "mutation_classes": dict(notes.most_common(40)),
                                      "parse_unmodelled_framing": n_unmodelled, "schedules": n_sched, "schedule_scenarios": n_groups,
+                                     "legs": dict(Counter(leg_of)), "transaction_lists(v2 handler)": n_list, "late_payloads(v2 handler)": n_late,
+                                     "CreateTransaction calls (wired Network)": n_create,
                                      "adds": {"total": n_add, "admitted": n_admit, "rejected": n_reject, "re-adds": n_readd, "context-cancelled-in-write-tx": n_cancel}}
     ctx.cov["samples"] = [impl[0][:300] if impl else "", next((impl[i][:300] for i, o in enumerate(ops) if o.get("op") == "sched"), "")]
